@@ -9,7 +9,7 @@ props = sorted(json.load(open(os.path.join(ROOT, "tools", "claims.json")))["clai
 
 def run_props(repo, ps):
     ev = tempfile.mkdtemp(prefix="nsweepev.")
-    out = subprocess.run([os.path.join(ROOT, "bin", "gqlvet"), "findings"] + ps, env=dict(ENV, GQLVET_REPO=repo, GQLVET_EVIDENCE=ev),
+    out = subprocess.run([os.environ.get("GQLVET_BIN", os.path.join(ROOT, "bin", "gqlvet")), "findings"] + ps, env=dict(ENV, GQLVET_REPO=repo, GQLVET_EVIDENCE=ev),
                          capture_output=True, text=True).stdout
     subprocess.run(["rm", "-rf", ev])
     return out
@@ -32,35 +32,47 @@ def findings(repo):
         res.add(p + " " + kind + " " + key)
     return res
 
-def worktree():
+# a neutral edit is applied to HEAD; one written against an earlier commit of /repo that a later fix: commit has
+# rewritten is applied to that commit instead (and compared with that commit's findings)
+REVS = ["HEAD", "f7541c4"]
+
+def worktree(rev="HEAD"):
     wt = tempfile.mkdtemp(prefix="nsweepwt."); os.rmdir(wt)
-    subprocess.run(["git", "-C", "/repo", "worktree", "add", "--detach", wt, "HEAD"], capture_output=True)
+    subprocess.run(["git", "-C", "/repo", "worktree", "add", "--detach", wt, rev], capture_output=True)
     return wt
+
+_ref = {}
+def reference(rev):
+    if rev not in _ref:
+        wt = worktree(rev); _ref[rev] = findings(wt); drop(wt)
+    return _ref[rev]
 
 def drop(wt):
     subprocess.run(["git", "-C", "/repo", "worktree", "remove", "--force", wt], capture_output=True)
 
 def one(patch):
-    wt = worktree()
-    r = subprocess.run(["git", "-C", wt, "apply", patch], capture_output=True, text=True)
-    if r.returncode != 0:
+    for rev in REVS:
+        wt = worktree(rev)
+        r = subprocess.run(["git", "-C", wt, "apply", patch], capture_output=True, text=True)
+        if r.returncode != 0:
+            drop(wt)
+            continue
+        got = findings(wt)
         drop(wt)
-        return patch, None
-    got = findings(wt)
-    drop(wt)
-    return patch, got
+        return patch, got, rev
+    return patch, None, None
 
 def main():
     patches = [os.path.abspath(x) for x in sys.argv[1:]] or sorted(glob.glob(os.path.join(ROOT, "neutral", "*", "patch.diff")))
-    wt = worktree(); ref = findings(wt); drop(wt)
+    reference("HEAD")
     bad = 0
     with cf.ThreadPoolExecutor(max_workers=10) as ex:
-        for patch, got in ex.map(one, patches):
+        for patch, got, rev in ex.map(one, patches):
             name = patch.replace(ROOT + "/", "")
             if got is None:
                 print("%-40s does not apply" % name)
                 continue
-            new = sorted(got - ref)
+            new = sorted(got - reference(rev))
             if new:
                 bad += 1
                 print("%-40s FALSE ALARM" % name)
